@@ -153,6 +153,8 @@ inductive Err where
   | corruptedData    -- CorruptedDataError (short data header)
   | value            -- ValueError (non-zero version length)
   | struct           -- struct.error (short back pointer)
+  | os               -- OSError (negative seek offset, missing file)
+  | unicode          -- UnicodeDecodeError (status byte ≥ 128 in `TxnHeaderFromString`)
 deriving Repr, DecidableEq
 
 /-- `_read_data_header(pos)` on `rest = file[pos:]`, plus the data bytes (which read_index skips):
